@@ -337,7 +337,7 @@ func runPlan(idx int, p respPlan, t *respTargets, root string) respRun {
 			if p.fatal {
 				target = strings.TrimPrefix(t.h1s.URL, "https://")
 			}
-			extra += "      ssl: true\n"
+			extra += "      ssl: true\n      tls-handshake-timeout: 60s\n"
 			seen = func() int64 { return 0 }
 		}
 		if strings.HasSuffix(p.gun, "/scenario") {
